@@ -478,6 +478,33 @@ fn verify<B: Image>(art: &mut Artifact<B>, model: &[ModelLayer], name: &Option<S
             break;
         }
     }
+    // the untyped getter: the bytes of a layer with this digest, under the descriptor of a layer with this digest
+    for i in 0..model.len() {
+        let d = &digests[i];
+        match art.get_layer(d) {
+            Err(e) => p.errors.push(format!("get_layer of the digest of layer {i}: {e:#}")),
+            Ok((desc, blob)) => {
+                use prost::Message;
+                let same = match &model[i].msg {
+                    Msg::Instance(m) => v1::Instance::decode(&blob[..]).ok().as_ref() == Some(m),
+                    Msg::Parametric(m) => v1::ParametricInstance::decode(&blob[..]).ok().as_ref() == Some(m),
+                    Msg::Solution(m) => v1::State::decode(&blob[..]).ok().as_ref() == Some(m),
+                    Msg::SampleSet(m) => v1::SampleSet::decode(&blob[..]).ok().as_ref() == Some(m),
+                };
+                if !same {
+                    p.diffs.push(("untyped-getter".into(), format!("get_layer of the digest of layer {i}: the bytes do not decode to the stored message")));
+                }
+                let ann = desc.annotations().clone().unwrap_or_default();
+                let fits = (0..model.len()).any(|j| &digests[j] == d && desc.media_type() == &model[j].kind.media_type() && ann == model[j].ann);
+                if desc.digest() != &d.to_string() || !fits {
+                    p.diffs.push(("untyped-getter-descriptor".into(), format!("get_layer of the digest of layer {i}: descriptor ({}, {}) is not that of a stored layer with this digest", desc.media_type(), desc.digest())));
+                }
+            }
+        }
+        if !full && i >= 1 {
+            break;
+        }
+    }
     // an unknown digest is an error for every getter
     let unknown = Digest::new("sha256:00000000000000000000000000000000000000000000000000000000deadbeef").unwrap();
     if art.get_instance(&unknown).is_ok() || art.get_solution(&unknown).is_ok() || art.get_sample_set(&unknown).is_ok() || art.get_parametric_instance(&unknown).is_ok() || art.get_layer(&unknown).is_ok() {
